@@ -191,6 +191,85 @@ theorem loop_steps_le (p : Prog) (maxSteps : Nat) (h : Op.step ∉ p.body) (f : 
       omega
     · simp only [hc, Bool.false_eq_true, if_false]; omega
 
+/-- the loop condition of `_model_run_func` -/
+def goOn (maxSteps : Nat) (s : State) : Bool := s.running && decide (s.steps < maxSteps)
+
+/-- `s` stepped by hand `j` times -/
+def handFrom (p : Prog) (s : State) (j : Nat) : State := run p.cfg s (List.replicate j (Op.step :: p.body)).flatten
+
+theorem handFrom_succ (p : Prog) (s : State) (j : Nat) : handFrom p s (j + 1) = handFrom p (stepOnce p s) j := by
+  simp only [handFrom, List.replicate_succ, List.flatten_cons, run_append, stepOnce_eq_run]
+
+/-- the loop steps exactly while the loop condition holds: it ends at the *first* hand-stepped state at which the
+    model has stopped or reached `maxSteps` (fuel permitting) -/
+theorem loop_eq_run_min (p : Prog) (maxSteps : Nat) (f : Nat) (s : State) :
+    ∃ k ≤ f, loop p maxSteps f s = handFrom p s k ∧ ∀ j < k, goOn maxSteps (handFrom p s j) = true := by
+  induction f generalizing s with
+  | zero => exact ⟨0, Nat.le_refl _, rfl, fun j hj => absurd hj (Nat.not_lt_zero _)⟩
+  | succ f ih =>
+    simp only [loop]
+    by_cases hc : (s.running && decide (s.steps < maxSteps)) = true
+    · simp only [hc, if_true]
+      obtain ⟨k, hk, he, hmin⟩ := ih (stepOnce p s)
+      refine ⟨k + 1, by omega, by rw [he, handFrom_succ], ?_⟩
+      intro j hj
+      cases j with
+      | zero => exact hc
+      | succ j => rw [handFrom_succ]; exact hmin j (by omega)
+    · simp only [hc, Bool.false_eq_true, if_false]
+      exact ⟨0, by omega, rfl, fun j hj => absurd hj (Nat.not_lt_zero _)⟩
+
+/-- the model constructed and stepped by hand `j` times -/
+def hand (p : Prog) (j : Nat) : State := run p.cfg (Collect.init p.cfg p.tables) (histOf p j)
+
+theorem hand_eq (p : Prog) (j : Nat) : hand p j = handFrom p (construct p) j := by
+  rw [hand, histOf, run_append]; rfl
+
+/-- the number of steps `batch_run` takes is pinned: the least `k` at which the hand-stepped model has stopped or
+    reached `maxSteps` -/
+theorem runModel_eq_run_min (p : Prog) (maxSteps : Nat) :
+    ∃ k ≤ maxSteps, runModel p maxSteps = hand p k ∧ (∀ j < k, goOn maxSteps (hand p j) = true) ∧
+      goOn maxSteps (hand p k) = false := by
+  obtain ⟨k, hk, he, hmin⟩ := loop_eq_run_min p maxSteps maxSteps (construct p)
+  refine ⟨k, hk, by rw [runModel, he, hand_eq], fun j hj => by rw [hand_eq]; exact hmin j hj, ?_⟩
+  have hd := loop_done p maxSteps maxSteps (construct p) (by omega)
+  rw [hand_eq, ← he]
+  unfold goOn
+  rcases hd with hd | hd
+  · simp [hd]
+  · have : ¬ (loop p maxSteps maxSteps (construct p)).steps < maxSteps := by omega
+    simp [this]
+
+theorem find?_range_first (P : Nat → Bool) (n k : Nat) (hk : k < n) (hP : P k = true) (hmin : ∀ j < k, P j = false) :
+    (List.range n).find? P = some k := by
+  induction n with
+  | zero => omega
+  | succ n ih =>
+    rw [List.range_succ, List.find?_append]
+    by_cases hkn : k < n
+    · rw [ih hkn]; rfl
+    · have hkn' : k = n := by omega
+      subst hkn'
+      have : (List.range k).find? P = none := by
+        rw [List.find?_eq_none]
+        intro j hj
+        simp [hmin j (List.mem_range.mp hj)]
+      simp [this, hP]
+
+/-- the number of steps `_model_run_func` takes, computed by stepping by hand: the first `j` at which the hand-stepped
+    model has stopped or reached `maxSteps` -/
+def stepsTaken (p : Prog) (maxSteps : Nat) : Nat :=
+  ((List.range (maxSteps + 1)).find? fun j => !goOn maxSteps (hand p j)).getD maxSteps
+
+theorem runModel_eq_hand (p : Prog) (maxSteps : Nat) :
+    runModel p maxSteps = hand p (stepsTaken p maxSteps) ∧ stepsTaken p maxSteps ≤ maxSteps := by
+  obtain ⟨k, hk, he, hmin, hstop⟩ := runModel_eq_run_min p maxSteps
+  have : stepsTaken p maxSteps = k := by
+    unfold stepsTaken
+    rw [find?_range_first _ _ k (by omega) (by simp [hstop]) (fun j hj => by simp [hmin j hj])]
+    rfl
+  rw [this]; exact ⟨he, hk⟩
+
 theorem runModel_eq_run (p : Prog) (maxSteps : Nat) :
     ∃ k ≤ maxSteps, runModel p maxSteps = run p.cfg (Collect.init p.cfg p.tables) (histOf p k) := by
   obtain ⟨k, hk, he⟩ := loop_eq_run p maxSteps maxSteps (construct p)
@@ -369,6 +448,28 @@ theorem runRows_of_holds (cls : Kwargs κ → Prog) (maxSteps : Nat) (per : Int)
     rw [this]
     exact rowsAt_of_holds h r i _ this
 
+/-- the rows `_model_run_func` returns for a run, written out: the model is the one stepped by hand `stepsTaken` times;
+    of its stored collections `snaps` the positions `picks` selects are reported, each as `rowsOfSnap` -/
+def rowsSpec (cls : Kwargs κ → Prog) (maxSteps : Nat) (period : Int) (r : Run κ) : List (BRow κ) :=
+  let p := cls r.kwargs
+  let snaps := storedSnaps p.cfg (Collect.init p.cfg p.tables) (histOf p (stepsTaken p maxSteps))
+  match picks snaps.length period with
+  | .ok ps => ps.flatMap fun i => match snaps[i]? with
+    | some sn => rowsOfSnap p.cfg snaps r sn
+    | none => []
+  | .error _ => []
+
+theorem runRows_eq_rowsSpec (cls : Kwargs κ → Prog) (maxSteps : Nat) (per : Int) (hp : per ≠ 0) (r : Run κ)
+    (hT : Total (cls r.kwargs).cfg) : runRows cls maxSteps per r = .ok (rowsSpec cls maxSteps per r) := by
+  have he := (runModel_eq_hand (cls r.kwargs) maxSteps).1
+  have hh := holds_history hT (cls r.kwargs).tables (histOf (cls r.kwargs) (stepsTaken (cls r.kwargs) maxSteps))
+  have hh' : Holds (cls r.kwargs).cfg (storedSnaps (cls r.kwargs).cfg (Collect.init (cls r.kwargs).cfg (cls r.kwargs).tables)
+      (histOf (cls r.kwargs) (stepsTaken (cls r.kwargs) maxSteps))) (runModel (cls r.kwargs) maxSteps) := by
+    rw [he]; exact hh
+  obtain ⟨ps, hps, hr⟩ := runRows_of_holds cls maxSteps per hp r _ hh'
+  rw [hr]
+  simp only [rowsSpec, hps]
+
 theorem lastWith_of_nodup_keys (key : α → Nat) (l : List α) (h : (l.map key).Nodup) (x : α) (hx : x ∈ l) :
     lastWith (fun y => key y == key x) l = some x := by
   have : l.filter (fun y => key y == key x) = [x] := by
@@ -395,6 +496,7 @@ def PVal.valuesT : PVal κ → List κ
   | .sized vs => vs
   | .iter vs => vs
   | .scalar v => [v]
+  | .once vs => vs
 
 theorem PVal.values_ok (pv : PVal κ) (h : pv ≠ .sized []) : pv.values = .ok pv.valuesT := by
   cases pv with
@@ -404,6 +506,7 @@ theorem PVal.values_ok (pv : PVal κ) (h : pv ≠ .sized []) : pv.values = .ok p
     | cons v vs => rfl
   | iter vs => rfl
   | scalar v => rfl
+  | once vs => rfl
 
 theorem paramLists_ok (params : List (Nat × PVal κ)) (h : ∀ p ∈ params, p.2 ≠ .sized []) :
     paramLists params = .ok (params.map fun p => (p.1, p.2.valuesT)) := by
@@ -435,25 +538,269 @@ def runRowsT (cls : Kwargs κ → Prog) (maxSteps : Nat) (period : Int) (r : Run
   | .ok rows => rows
   | .error _ => []
 
-theorem holds_runModel (p : Prog) (maxSteps : Nat) :
+theorem holds_runModel (p : Prog) (hT : Total p.cfg) (maxSteps : Nat) :
     ∃ k ≤ maxSteps, runModel p maxSteps = run p.cfg (Collect.init p.cfg p.tables) (histOf p k) ∧
       Holds p.cfg (storedSnaps p.cfg (Collect.init p.cfg p.tables) (histOf p k)) (runModel p maxSteps) := by
   obtain ⟨k, hk, he⟩ := runModel_eq_run p maxSteps
   refine ⟨k, hk, he, ?_⟩
-  have := holds_run (holds_init p.cfg p.tables) (histOf p k)
-  simp only [List.nil_append] at this
+  rw [he]; exact holds_history hT p.tables (histOf p k)
+
+/-! ### `batch_run` never fails for a period ≠ 0, whatever the reporters do
+
+A reporter that raises inside a collect the model swallows leaves `model_vars` ragged, but every column stays at
+least as long as `_collection_steps`: `_collect_data` finds a value at every reported position. -/
+
+theorem mOk_eq_all (cfg : Cfg) (sn : Snap) : mOk cfg sn = cfg.mreps.all (·.passes sn) := by
+  rw [Bool.eq_iff_iff, mOk_iff, List.all_eq_true]
+
+theorem colsOf_length_ge (l : List MRep) (snaps : List Snap) :
+    ∀ col ∈ colsOf l snaps, (snaps.filter fun sn => l.all (·.passes sn)).length ≤ col.length := by
+  induction l generalizing snaps with
+  | nil => simp [colsOf]
+  | cons r rs ih =>
+    intro col hc
+    have hff : (snaps.filter fun sn => (r :: rs).all (·.passes sn)) =
+        (snaps.filter r.passes).filter fun sn => rs.all (·.passes sn) := by
+      rw [List.filter_filter]
+      apply List.filter_congr
+      intro sn _
+      simp [Bool.and_comm]
+    simp only [colsOf, List.mem_cons] at hc
+    rcases hc with rfl | hc
+    · rw [hff, List.length_map]; exact List.length_filter_le _ _
+    · rw [hff]; exact ih _ col hc
+
+theorem colsLong_of_holdsG {cfg : Cfg} {snaps : List Snap} {s : State} (h : HoldsG cfg snaps s) :
+    ∀ col ∈ s.modelVars, s.collSteps.length ≤ col.length := by
+  intro col hc
+  rw [h.modelVars] at hc
+  have := colsOf_length_ge cfg.mreps snaps col hc
+  rw [h.collSteps, List.length_map]
+  have he : snaps.filter (mOk cfg) = snaps.filter fun sn => cfg.mreps.all (·.passes sn) :=
+    List.filter_congr (fun sn _ => mOk_eq_all cfg sn)
   rw [he]; exact this
+
+theorem mapM_getElem?_isSome (cols : List (List Val)) (i : Nat) (h : ∀ col ∈ cols, i < col.length) :
+    ∃ vs, cols.mapM (·[i]?) = some vs := by
+  induction cols with
+  | nil => exact ⟨[], rfl⟩
+  | cons c cs ih =>
+    obtain ⟨vs, hvs⟩ := ih (fun col hc => h col (by simp [hc]))
+    have hlt : i < c.length := h c (by simp)
+    have hc : c[i]? = some c[i] := List.getElem?_eq_getElem hlt
+    exact ⟨c[i] :: vs, by simp [List.mapM_cons, hc, hvs]⟩
+
+theorem mapME_isOk (f : α → Except Err β) (l : List α) (h : ∀ x ∈ l, ∃ y, f x = .ok y) :
+    ∃ ys, mapME f l = .ok ys := by
+  induction l with
+  | nil => exact ⟨[], rfl⟩
+  | cons x xs ih =>
+    obtain ⟨y, hy⟩ := h x (by simp)
+    obtain ⟨ys, hys⟩ := ih (fun z hz => h z (by simp [hz]))
+    exact ⟨y :: ys, by simp only [mapME, hy, hys]⟩
 
 theorem runRows_total (cls : Kwargs κ → Prog) (maxSteps : Nat) (per : Int) (hp : per ≠ 0) (r : Run κ) :
     runRows cls maxSteps per r = .ok (runRowsT cls maxSteps per r) := by
-  obtain ⟨k, _, _, h⟩ := holds_runModel (cls r.kwargs) maxSteps
-  obtain ⟨ps, _, he⟩ := runRows_of_holds cls maxSteps per hp r _ h
-  simp only [runRowsT, he]
+  obtain ⟨k, _, he⟩ := runModel_eq_run (cls r.kwargs) maxSteps
+  have hG := holdsG_history (cls r.kwargs).cfg (cls r.kwargs).tables (histOf (cls r.kwargs) k)
+  rw [← he] at hG
+  have hlong := colsLong_of_holdsG hG
+  obtain ⟨ps, hps, hmem, _⟩ := picks_spec (runModel (cls r.kwargs) maxSteps).collSteps.length per hp
+  have hrows : ∀ i ∈ ps, ∃ rows, rowsAt r (runModel (cls r.kwargs) maxSteps) i = .ok rows := by
+    intro i hi
+    have hlt := ((hmem i).mp hi).1
+    obtain ⟨vs, hvs⟩ := mapM_getElem?_isSome (runModel (cls r.kwargs) maxSteps).modelVars i
+      (fun col hc => Nat.lt_of_lt_of_le hlt (hlong col hc))
+    have hst : (runModel (cls r.kwargs) maxSteps).collSteps[i]? =
+        some (runModel (cls r.kwargs) maxSteps).collSteps[i] := List.getElem?_eq_getElem hlt
+    unfold rowsAt collectData
+    simp only [hst, hvs]
+    exact ⟨_, rfl⟩
+  obtain ⟨ys, hys⟩ := mapME_isOk _ ps hrows
+  have : runRows cls maxSteps per r = .ok ys.flatten := by
+    unfold runRows
+    simp only [hps, hys]
+  simp only [runRowsT, this]
 
 theorem batchOrder_total (cls : Kwargs κ → Prog) (maxSteps : Nat) (per : Int) (hp : per ≠ 0) (order : List (Run κ)) :
     batchOrder cls maxSteps per order = .ok (order.flatMap (runRowsT cls maxSteps per)) := by
   unfold batchOrder
   rw [mapME_ok _ (runRowsT cls maxSteps per) _ (fun r _ => runRows_total cls maxSteps per hp r)]
   simp [List.flatMap]
+
+/-! ### one call of `_make_model_kwargs` per iteration; one-shot iterators -/
+
+theorem product_empty_factor (l : List (Nat × List κ)) (h : ∃ p ∈ l, p.2 = []) : product l = [] := by
+  induction l with
+  | nil => simp at h
+  | cons x xs ih =>
+    obtain ⟨n, vs⟩ := x
+    simp only [product]
+    by_cases hv : vs = []
+    · subst hv; rfl
+    · have : product xs = [] := by
+        apply ih
+        obtain ⟨p, hp, he⟩ := h
+        rcases List.mem_cons.mp hp with rfl | hp
+        · exact absurd he hv
+        · exact ⟨p, hp, he⟩
+      simp [this]
+
+theorem no_empty_sized_of_ok {params : List (Nat × PVal κ)} {kws : List (Kwargs κ)} (h : makeKwargs params = .ok kws) :
+    ∀ p ∈ params, p.2 ≠ .sized [] := by
+  intro p hp he
+  have := paramLists_err params ⟨p, hp, he⟩
+  simp [makeKwargs, this] at h
+
+theorem makeKwargs_eq_product {params : List (Nat × PVal κ)} (h : ∀ p ∈ params, p.2 ≠ .sized []) :
+    makeKwargs params = .ok (product (params.map fun p => (p.1, p.2.valuesT))) := by
+  simp only [makeKwargs, paramLists_ok params h]
+
+theorem iterLoop_reiterable (params : List (Nat × PVal κ)) (kws : List (Kwargs κ))
+    (hre : ∀ p ∈ params, p.2.spent = p.2) (hk : makeKwargs params = .ok kws) (n it : Nat) :
+    iterLoop n it params = .ok ((List.range n).flatMap fun i => kws.map fun kw => (it + i, kw)) := by
+  have hmap : (params.map fun p => (p.1, p.2.spent)) = params := by
+    conv => rhs; rw [← List.map_id params]
+    apply List.map_congr_left
+    intro p hp
+    rw [hre p hp]; rfl
+  induction n generalizing it with
+  | zero => rfl
+  | succ n ih =>
+    simp only [iterLoop, hk, hmap, ih (it + 1)]
+    rw [List.range_succ_eq_map, List.flatMap_cons, List.flatMap_map]
+    simp only [Nat.add_zero, Except.ok.injEq, List.append_cancel_left_eq]
+    congr 1
+    funext i
+    apply List.map_congr_left
+    intro kw _
+    simp only [Prod.mk.injEq, and_true]
+    omega
+
+theorem spent_spent (pv : PVal κ) : pv.spent.spent = pv.spent := by
+  cases pv <;> rfl
+
+/-- once a one-shot iterator among the parameter values is spent, `_make_model_kwargs` yields no configuration -/
+theorem makeKwargs_spent {params : List (Nat × PVal κ)} {kws : List (Kwargs κ)} (hk : makeKwargs params = .ok kws)
+    (hone : ∃ p ∈ params, ∃ vs, p.2 = .once vs) :
+    makeKwargs (params.map fun p => (p.1, p.2.spent)) = .ok [] := by
+  have hne := no_empty_sized_of_ok hk
+  have hne' : ∀ p ∈ params.map (fun p => (p.1, p.2.spent)), p.2 ≠ .sized [] := by
+    intro p hp
+    obtain ⟨q, hq, rfl⟩ := List.mem_map.mp hp
+    have := hne q hq
+    cases hq2 : q.2 <;> simp_all [PVal.spent]
+  rw [makeKwargs_eq_product hne', product_empty_factor]
+  obtain ⟨p, hp, vs, hv⟩ := hone
+  refine ⟨(p.1, (PVal.once ([] : List κ)).valuesT), ?_, rfl⟩
+  simp only [List.map_map, List.mem_map]
+  exact ⟨p, hp, by simp [Function.comp, hv, PVal.spent]⟩
+
+theorem iterLoop_oneshot (params : List (Nat × PVal κ)) (kws : List (Kwargs κ)) (hk : makeKwargs params = .ok kws)
+    (hone : ∃ p ∈ params, ∃ vs, p.2 = .once vs) (n it : Nat) :
+    iterLoop (n + 1) it params = .ok (kws.map fun kw => (it, kw)) := by
+  have hs := makeKwargs_spent hk hone
+  have hrest := iterLoop_reiterable (params.map fun p => (p.1, p.2.spent)) [] (by
+      intro p hp
+      obtain ⟨q, _, rfl⟩ := List.mem_map.mp hp
+      exact spent_spent q.2) hs n (it + 1)
+  simp only [iterLoop, hk, hrest]
+  simp
+
+/-! ### the rows of one run stay together, in the run's order -/
+
+theorem mapME_mem {f : α → Except Err β} {l : List α} {ys : List β} (h : mapME f l = .ok ys) :
+    ∀ y ∈ ys, ∃ x ∈ l, f x = .ok y := by
+  induction l generalizing ys with
+  | nil => simp [mapME] at h; subst h; simp
+  | cons x xs ih =>
+    simp only [mapME] at h
+    cases hx : f x with
+    | error e => simp [hx] at h
+    | ok y0 =>
+      cases hxs : mapME f xs with
+      | error e => simp [hx, hxs] at h
+      | ok ys0 =>
+        simp only [hx, hxs, Except.ok.injEq] at h
+        subst h
+        intro y hy
+        rcases List.mem_cons.mp hy with rfl | hy
+        · exact ⟨x, by simp, hx⟩
+        · obtain ⟨x', hx', hf⟩ := ih hxs y hy
+          exact ⟨x', by simp [hx'], hf⟩
+
+theorem rowsAt_runId {r : Run κ} {s : State} {i : Nat} {rows : List (BRow κ)} (h : rowsAt r s i = .ok rows) :
+    ∀ b ∈ rows, b.runId = r.runId := by
+  unfold rowsAt at h
+  cases hc : collectData s i with
+  | error e => simp [hc] at h
+  | ok t =>
+    obtain ⟨st, mv, ags⟩ := t
+    simp only [hc, Except.ok.injEq] at h
+    subst h
+    intro b hb
+    split at hb
+    · simp only [List.mem_singleton] at hb; subst hb; rfl
+    · obtain ⟨a, _, rfl⟩ := List.mem_map.mp hb; rfl
+
+theorem runRowsT_runId (cls : Kwargs κ → Prog) (maxSteps : Nat) (per : Int) (r : Run κ) :
+    ∀ b ∈ runRowsT cls maxSteps per r, b.runId = r.runId := by
+  intro b hb
+  unfold runRowsT at hb
+  cases hr : runRows cls maxSteps per r with
+  | error e => simp [hr] at hb
+  | ok rows =>
+    simp only [hr] at hb
+    unfold runRows at hr
+    cases hp : picks (runModel (cls r.kwargs) maxSteps).collSteps.length per with
+    | error e => simp [hp] at hr
+    | ok ps =>
+      simp only [hp] at hr
+      cases hm : mapME (rowsAt r (runModel (cls r.kwargs) maxSteps)) ps with
+      | error e => simp [hm] at hr
+      | ok chunks =>
+        simp only [hm, Except.ok.injEq] at hr
+        subst hr
+        obtain ⟨chunk, hc, hbc⟩ := List.mem_flatten.mp hb
+        obtain ⟨i, _, hi⟩ := mapME_mem hm chunk hc
+        exact rowsAt_runId hi b hbc
+
+theorem filter_flatMap_key (key : α → Nat) (bkey : β → Nat) (chunk : α → List β)
+    (hck : ∀ a, ∀ b ∈ chunk a, bkey b = key a) (l : List α) (hnd : (l.map key).Nodup) (a : α) (ha : a ∈ l) :
+    (l.flatMap chunk).filter (fun b => bkey b == key a) = chunk a := by
+  induction l with
+  | nil => simp at ha
+  | cons x xs ih =>
+    simp only [List.map_cons, List.nodup_cons] at hnd
+    rw [List.flatMap_cons, List.filter_append]
+    rcases List.mem_cons.mp ha with rfl | ha
+    · have h1 : (chunk a).filter (fun b => bkey b == key a) = chunk a := by
+        rw [List.filter_eq_self]; intro b hb; simp [hck a b hb]
+      have h2 : (xs.flatMap chunk).filter (fun b => bkey b == key a) = [] := by
+        rw [List.filter_eq_nil_iff]
+        intro b hb hk
+        obtain ⟨y, hy, hby⟩ := List.mem_flatMap.mp hb
+        have : key y = key a := by rw [← hck y b hby]; simpa using hk
+        exact hnd.1 (List.mem_map.mpr ⟨y, hy, this⟩)
+      rw [h1, h2, List.append_nil]
+    · have h1 : (chunk x).filter (fun b => bkey b == key a) = [] := by
+        rw [List.filter_eq_nil_iff]
+        intro b hb hk
+        have : key x = key a := by rw [← hck x b hb]; simpa using hk
+        exact hnd.1 (this ▸ List.mem_map.mpr ⟨a, ha, rfl⟩)
+      rw [h1, List.nil_append, ih hnd.2 ha]
+
+/-! ### degenerate limits -/
+
+theorem filter_mod_range (n p : Nat) (hn : 0 < n) (hp : n ≤ p) : (List.range n).filter (fun i => i % p = 0) = [0] := by
+  induction n with
+  | zero => omega
+  | succ n ih =>
+    rw [List.range_succ, List.filter_append]
+    by_cases h0 : n = 0
+    · subst h0; simp
+    · rw [ih (by omega) (by omega)]
+      have : n % p ≠ 0 := by rw [Nat.mod_eq_of_lt (by omega)]; exact h0
+      simp [this]
 
 end Mesa.Batch
